@@ -172,6 +172,10 @@ type Exec struct {
 	spawned []*FuncV
 
 	dbgDone   bool
+	curHeapA, curHeapB Heap            // the two heaps being merged (for values that need their objects' contents)
+	pendingObjs map[*Object]Value      // objects created by a merge, added to the merged heap
+	strHeap   map[*Object]*Term // immutable string contents created by merges (strings never change)
+	curHeapForStr Heap
 	opaqueIds map[string]uint64
 	events    []callEvent
 	unmodelledWritten map[string]bool
@@ -201,7 +205,7 @@ type Exec struct {
 }
 
 func NewExec(ld *Loaded) *Exec {
-	x := &Exec{b: NewB(), ld: ld, reads: map[string][]*Term{}, appliedNames: map[string]int{}, safetyN: map[string]int{}, unmodelledWritten: map[string]bool{}}
+	x := &Exec{b: NewB(), ld: ld, reads: map[string][]*Term{}, appliedNames: map[string]int{}, safetyN: map[string]int{}, unmodelledWritten: map[string]bool{}, strHeap: map[*Object]*Term{}, pendingObjs: map[*Object]Value{}}
 	return x
 }
 
@@ -238,7 +242,17 @@ func fnKey(fn *ssa.Function) string {
 	if fn.Pkg == nil {
 		return fn.String()
 	}
-	return fn.Pkg.Pkg.Name() + "." + fn.RelString(fn.Pkg.Pkg)
+	return pkgKey(fn.Pkg.Pkg.Name(), fn.Pkg.Pkg.Path()) + "." + fn.RelString(fn.Pkg.Pkg)
+}
+
+// pkgKey: package name, or the last path element for commands (package main).
+func pkgKey(name, path string) string {
+	if name == "main" {
+		if k := strings.LastIndex(path, "/"); k >= 0 {
+			return path[k+1:]
+		}
+	}
+	return name
 }
 
 type edge struct {
@@ -322,12 +336,18 @@ func (x *Exec) mergeStates(edges []edge) (*Term, *State) {
 			continue
 		}
 		nh := make(Heap, len(st.h))
+		x.curHeapForStr = st.h
+		x.curHeapA, x.curHeapB = e.st.h, st.h
 		for o, v := range e.st.h {
 			if ov, ok := st.h[o]; ok {
 				nh[o] = x.iteV(e.cond, v, ov)
 			} else {
 				nh[o] = v
 			}
+		}
+		for o, v := range x.pendingObjs {
+			nh[o] = v
+			delete(x.pendingObjs, o)
 		}
 		for o, v := range st.h {
 			if _, ok := nh[o]; !ok {
@@ -825,12 +845,18 @@ func (x *Exec) run(fn *ssa.Function, args []Value, st *State, pcIn *Term) (Value
 			continue
 		}
 		nh := make(Heap, len(rst.h))
+		x.curHeapForStr = rst.h
+		x.curHeapA, x.curHeapB = e.st.h, rst.h
 		for o, v := range e.st.h {
 			if ov, ok := rst.h[o]; ok {
 				nh[o] = x.iteV(e.cond, v, ov)
 			} else {
 				nh[o] = v
 			}
+		}
+		for o, v := range x.pendingObjs {
+			nh[o] = v
+			delete(x.pendingObjs, o)
 		}
 		for o, v := range rst.h {
 			if _, ok := nh[o]; !ok {
@@ -1193,7 +1219,8 @@ func (x *Exec) convert(v Value, from, to types.Type, st *State) Value {
 				}
 				st.h[o] = a
 			} else {
-				st.h[o] = st.h[s.Obj]
+				x.curHeapForStr = st.h
+				st.h[o] = x.strArr(s)
 			}
 			return &SliceV{Obj: o, Off: b.Const(64, 0), Len: s.Len, Cap: s.Len}
 		}
@@ -1232,7 +1259,8 @@ func (x *Exec) strByte(s *StrV, idx *Term, st *State) *Term {
 		}
 		return x.sel(a, idx)
 	}
-	return x.sel(st.h[s.Obj].(*Term), idx)
+	x.curHeapForStr = st.h
+	return x.sel(x.strArr(s), idx)
 }
 
 func (x *Exec) strEq(p, q *StrV, st *State) *Term {
